@@ -1,3 +1,4 @@
+CONSTANT Tol = "none"
 INIT TInit
 NEXT TNext
 POSTCONDITION TraceAccepted
